@@ -31,7 +31,7 @@ theorem M33_sansScaling_recompose {tmin tmax : α} {sqrt sin cos : α → α} {a
     obtain ⟨⟨R00, R01, R02, R10, R11, R12, R20, R21, R22⟩, scl, shr⟩ := r
     simp only at h0 e11 e01 hc e2 e4
     subst e11 e01
-    have l0 := len_eq_one (V2_length_spec (tmin := tmin) hs) R11 (-R10) h0
+    have l0 := len_eq_one (V2_length_spec (tmin := tmin) (tmax := tmax) hs) R11 (-R10) h0
     have l1 : Gen.V2.length tmin tmax sqrt ⟨R10, R11⟩ = 1 := by
       apply len_eq_one (V2_length_spec hs); rw [← hc]; ring
     obtain ⟨tc, ts⟩ := ht R11 R10 hc
@@ -61,7 +61,7 @@ theorem M33_sansScaling_witness {tmin tmax : α} {sqrt sin cos : α → α} {ata
     (Gen.M33.sansScaling tmin tmax sqrt sin cos atan2 W345).toMat = (W345 : M33 α).toMat ∧
     (Gen.M33.sansScaling tmin tmax sqrt sin cos atan2 W345).x20 = 3 ∧
     (Gen.M33.sansScaling tmin tmax sqrt sin cos atan2 W345).x21 = 4 := by
-  have he := ear33_W345 htm (V2_length_spec (tmin := tmin) hs)
+  have he := ear33_W345 htm (V2_length_spec (tmin := tmin) (tmax := tmax) hs)
   have h := (M33_sansScaling_recompose (sin := sin) (cos := cos) (atan2 := atan2) hs ht ⟨rfl, rfl, rfl⟩ he).2
   have e : scaleH2 (⟨1, 1⟩ : V2 α) = 1 := by
     ext i j; fin_cases i <;> fin_cases j <;> simp [scaleH2]
@@ -77,7 +77,7 @@ theorem M33_removeScaling_witness {tmin tmax : α} {sqrt sin cos : α → α} {a
     (Gen.M33.removeScaling tmin tmax sqrt sin cos atan2 W345).1 = true ∧
     (Gen.M33.removeScaling tmin tmax sqrt sin cos atan2 W345).2.x20 = 3 ∧
     (Gen.M33.removeScaling tmin tmax sqrt sin cos atan2 W345).2.x21 = 4 := by
-  rw [M33_removeScaling, ear33_W345 htm (V2_length_spec (tmin := tmin) hs)]
+  rw [M33_removeScaling, ear33_W345 htm (V2_length_spec (tmin := tmin) (tmax := tmax) hs)]
   exact ⟨rfl, (M33_sansScaling_witness hs ht htm).2⟩
 
 /-- over ℝ with the real square root, sine, cosine and `atan2 y x = arg (x + iy)` -/
